@@ -64,6 +64,11 @@ def _srv_E1(short=True):
     return peer.Server(label='E1', banner=b'SSH-1.5-1.2.27', ssh1={'cmask': 0x0e, 'amask': 0x0c})
 
 
+def _srv_E2(short=True):
+    # an old daemon that accepts none of the versions the tool offers: every connection is answered with the text error
+    return peer.Server(label='E2', banner=b'SSH-1.5-OpenSSH_3.4', ssh1={'cmask': 0x4c, 'amask': 0x2c}, versions_differ='always')
+
+
 def _srv_F(short=True):
     return peer.Server(label='F', banner=b'SSH-1.99-OpenSSH_3.4', ssh1={'cmask': 0x48, 'amask': 0x0c}, versions_differ=True,
                        kex=['diffie-hellman-group1-sha1'], key=['ssh-rsa'], enc=['3des-cbc'], mac=['hmac-md5'])
@@ -85,6 +90,7 @@ ARCHETYPES = {
     'D2': dict(make=_srv_D2, opts=[], role='server'),
     'E': dict(make=_srv_E, opts=[], role='server'),
     'E1': dict(make=_srv_E1, opts=['-1'], role='server'),
+    'E2': dict(make=_srv_E2, opts=[], role='server'),
     'F': dict(make=_srv_F, opts=[], role='server'),
     'G': dict(make=None, opts=[], role='client'),
     'DUP': dict(make=_srv_DUP, opts=[], role='server'),
@@ -119,14 +125,14 @@ BENIGN = ('split', 'seg1', 'prelines')
 
 def initial_conns(arch):
     # E and F: the first SSH-2 attempt is answered by "Protocol major versions differ." and the tool reconnects in SSH-1.
-    return 2 if arch in ('E', 'F') else 1
+    return 2 if arch in ('E', 'E2', 'F') else 1
 
 
 def advertised(res, arch):
     p = res.peer
     if arch == 'G':
         return {'kex': p.kex, 'key': p.key, 'enc': p.enc_s2c, 'mac': p.mac_s2c}
-    if arch in ('E', 'E1', 'F'):
+    if arch in ('E', 'E1', 'E2', 'F'):
         cm, am = p.ssh1['cmask'], p.ssh1['amask']
         ciphers = ['none', 'idea', 'des', '3des', 'tss', 'rc4', 'blowfish']
         auths = ['none', 'rhosts', 'rsa', 'password', 'rhosts_rsa', 'tis', 'kerberos']
